@@ -842,7 +842,8 @@ def main(argv=None):
             violations.append(v)
 
     n_done, harness_errors, stopped = core.run_pool(
-        'checks.c18', 'run_config', list(range(n_cfg)), ctx, nproc, chunk=1, per_run_timeout=900,
+        'checks.c18', 'run_config', list(range(n_cfg)), ctx, nproc, chunk=1,
+        per_run_timeout=1500 if tier == 'quick' else 5400,  # watchdog per configuration (a loaded machine is slow)
         wall_cap=args.wall or WALL_CAP[tier], on_result=on_result, stop_on=lambda r: n_unknown[0] >= 40)
     explore_wall = time.time() - t0
 
